@@ -582,6 +582,137 @@ class Program:
                         out.append(f"reads the table {q}")
         return sorted(set(out) | set(local))
 
+    def class_constant(self, K: str, name: str, _depth: int = 0):
+        """AST of the class level value `name` as seen from class K (first
+        definition along the MRO), with `Other.attr` references and
+        MappingProxyType / staticmethod wrappers resolved; None when there is
+        none or it is not a plain expression."""
+        if _depth > 6 or K not in self.classes:
+            return None
+        for c in self.mro(K):
+            ci = self.classes.get(c)
+            if ci is None or name not in ci.assigns:
+                continue
+            v = clone(ci.assigns[name])
+            prog = self
+
+            class R(ast.NodeTransformer):
+                ok = True
+
+                def visit_Call(self, n):
+                    self.generic_visit(n)
+                    cn = call_name(n) or ""
+                    if cn.split(".")[-1] in ("MappingProxyType",
+                                             "staticmethod") and \
+                            len(n.args) == 1 and not n.keywords:
+                        return n.args[0]
+                    return n
+
+                def visit_Attribute(self, n):
+                    if isinstance(n.value, ast.Name) and \
+                            n.value.id in prog.classes:
+                        r = prog.class_constant(n.value.id, n.attr,
+                                                _depth + 1)
+                        if r is None:
+                            self.ok = False
+                            return n
+                        return r
+                    self.generic_visit(n)
+                    return n
+
+                def visit_Dict(self, n):
+                    self.generic_visit(n)
+                    keys, vals = [], []
+                    for k, v_ in zip(n.keys, n.values):
+                        if k is None and isinstance(v_, ast.Dict):
+                            keys += v_.keys          # {**{..}, ..}
+                            vals += v_.values
+                        else:
+                            keys.append(k)
+                            vals.append(v_)
+                    n.keys, n.values = keys, vals
+                    return n
+            r = R()
+            v = r.visit(v)
+            return v if r.ok else None
+        return None
+
+    def specialise(self, fi: "FuncInfo", K: str) -> "FuncInfo":
+        """fi as it behaves on an instance of class K: `self.<name>` for a
+        class level name that is outside the rule inventory (configuration
+        through class attributes) is replaced by the value K sees, `f(..,
+        **{literal})` spreads into keywords."""
+        from .normalise import baseline
+        if fi.cls is None or not fi.params():
+            return fi
+        me = fi.params()[0]
+        keep = baseline()
+        hits = {}
+        for n in ast.walk(fi.node):
+            if isinstance(n, ast.Attribute) and isinstance(
+                    n.value, ast.Name) and n.value.id == me and isinstance(
+                    n.ctx, ast.Load):
+                owner = None
+                for c in self.mro(K):
+                    ci = self.classes.get(c)
+                    if ci is not None and n.attr in ci.assigns:
+                        owner = ci
+                        break
+                if owner is None:
+                    continue
+                if f"{owner.module.name}:={owner.name}.{n.attr}" in keep:
+                    continue
+                v = self.class_constant(K, n.attr)
+                if v is not None:
+                    hits[id(n)] = v
+        if not hits:
+            return fi
+        fn = clone(fi.node)
+        # clone() keeps structure: walk both trees in parallel
+        pairs = list(zip(ast.walk(fi.node), ast.walk(fn)))
+
+        class S(ast.NodeTransformer):
+            def __init__(self, table):
+                self.table = table
+
+            def visit_Attribute(self, n):
+                if id(n) in self.table:
+                    return clone(self.table[id(n)])
+                self.generic_visit(n)
+                return n
+
+            def visit_Call(self, n):
+                self.generic_visit(n)
+                kws = []
+                for k in n.keywords:
+                    if k.arg is None and isinstance(k.value, ast.Dict) and \
+                            all(isinstance(x, ast.Constant) and isinstance(
+                                x.value, str) for x in k.value.keys):
+                        for kk, vv in zip(k.value.keys, k.value.values):
+                            kws.append(ast.keyword(arg=kk.value, value=vv))
+                    else:
+                        kws.append(k)
+                n.keywords = kws
+                return n
+        table = {id(b): hits[id(a)] for a, b in pairs if id(a) in hits}
+        fn = S(table).visit(fn)
+        ast.fix_missing_locations(fn)
+        set_parents(fn)
+        out = FuncInfo(fi.qual, fi.module, fn, fi.cls)
+        try:
+            from .normalise import canonicalise
+            mfuncs = {f.name for f in self.functions.values()
+                      if f.module is fi.module and f.cls is None}
+            # imported module functions count as function names too
+            for st in ast.walk(fi.module.tree):
+                if isinstance(st, ast.ImportFrom):
+                    mfuncs |= {a.asname or a.name for a in st.names}
+            u, _ch = canonicalise(fn, me, set(), {"*"}, mfuncs)
+            out = FuncInfo(fi.qual, fi.module, u, fi.cls)
+        except Exception:
+            pass
+        return out
+
     def inlined_away(self, qual: str) -> bool:
         """qual is a function outside the rule inventory that the normal form
         has inlined into every one of its callers (no call by that name is
